@@ -345,7 +345,7 @@ func run(c *harness.Ctx, i int) {
 
 	base, err := b.open()
 	if err != nil {
-		c.Inconclusive("cannot open backend %s: %v", kind, err)
+		c.Skip("cannot open backend %s: %v", kind, err)
 		return
 	}
 	defer base.Close()
@@ -401,7 +401,7 @@ func run(c *harness.Ctx, i int) {
 	delivered(c, "second read, same stack ("+stack+")", a, ch, err)
 	base2, err := b.open()
 	if err != nil {
-		c.Inconclusive("cannot reopen backend %s: %v", kind, err)
+		c.Skip("cannot reopen backend %s: %v", kind, err)
 		return
 	}
 	defer base2.Close()
